@@ -196,3 +196,232 @@ package trend
 //@ ensures[C05] "range" forall kk :: 0 <= kk && kk < len(result) ==> 0 - 1 <= result[kk] && result[kk] <= 1
 //@ ensures[C03] consumed(snapshots) == len(snapshots) && closed(result)
 //@ ensures[C04] forall kk :: 0 <= kk && kk < len(result) ==> hor(result, kk) <= hor(snapshots, kk)
+
+// ---- reports (C14): every column has one value per date row; rows carry that date's close, annotation, outcome ----
+//@ func AlligatorStrategy.Report
+//@ requires a.Jaw.Period >= 1 && a.Teeth.Period >= 1 && a.Lip.Period >= 1 && consumed(c) == 0 && (forall k :: 0 <= k && k < len(c) ==> c[k].Close > 0)
+//@ ensures[C14] "column-count" len(result.Columns) == 6
+//@ ensures[C14] "one-value-per-date" len(c) > (max(a.Jaw.Period, max(a.Teeth.Period, a.Lip.Period)) - 1) ==> (forall i :: 0 <= i && i < len(result.Columns) ==> len(col(result.Columns[i])) == len(result.Date))
+//@ ensures[C14] "dates" len(c) > (max(a.Jaw.Period, max(a.Teeth.Period, a.Lip.Period)) - 1) ==> len(result.Date) <= len(c) && (forall k :: 0 <= k && k < len(result.Date) ==> result.Date[k] == c[k + len(c) - len(result.Date)].Date)
+//@ ensures[C14] "close" len(c) > (max(a.Jaw.Period, max(a.Teeth.Period, a.Lip.Period)) - 1) ==> (forall k :: 0 <= k && k < len(result.Date) ==> colnum(result.Columns[0])[k] == c[k + len(c) - len(result.Date)].Close)
+//@ ensures[C14] "annotation" len(c) > (max(a.Jaw.Period, max(a.Teeth.Period, a.Lip.Period)) - 1) ==> (forall k :: 0 <= k && k < len(result.Date) ==> colstr(result.Columns[4])[k] == (normS(res(AlligatorStrategy_Compute), k + len(c) - len(result.Date)) == 0 - 1 ? "S" : (normS(res(AlligatorStrategy_Compute), k + len(c) - len(result.Date)) == 1 ? "B" : "")))
+//@ ensures[C14] "outcome" len(c) > (max(a.Jaw.Period, max(a.Teeth.Period, a.Lip.Period)) - 1) ==> (forall k :: 0 <= k && k < len(result.Date) ==> colnum(result.Columns[5])[k] == res(Outcome)[k + len(c) - len(result.Date)] * 100)
+//@ ensures[C03] consumed(c) == len(c)
+//@ use nlast_hold(res(AlligatorStrategy_Compute), len(res(AlligatorStrategy_Compute)) - len(arg(ActionsToAnnotations, 0, 0)), len(res(AlligatorStrategy_Compute)) - len(arg(ActionsToAnnotations, 0, 0)))
+//@ use nlast_skip(res(AlligatorStrategy_Compute), arg(ActionsToAnnotations, 0, 0), len(res(AlligatorStrategy_Compute)) - len(arg(ActionsToAnnotations, 0, 0)))
+
+//@ func ApoStrategy.Report
+//@ requires 1 <= a.Apo.FastPeriod && a.Apo.FastPeriod <= a.Apo.SlowPeriod && consumed(c) == 0 && (forall k :: 0 <= k && k < len(c) ==> c[k].Close > 0)
+//@ ensures[C14] "column-count" len(result.Columns) == 4
+//@ ensures[C14] "one-value-per-date" len(c) > (a.Apo.SlowPeriod) ==> (forall i :: 0 <= i && i < len(result.Columns) ==> len(col(result.Columns[i])) == len(result.Date))
+//@ ensures[C14] "dates" len(c) > (a.Apo.SlowPeriod) ==> len(result.Date) <= len(c) && (forall k :: 0 <= k && k < len(result.Date) ==> result.Date[k] == c[k + len(c) - len(result.Date)].Date)
+//@ ensures[C14] "close" len(c) > (a.Apo.SlowPeriod) ==> (forall k :: 0 <= k && k < len(result.Date) ==> colnum(result.Columns[0])[k] == c[k + len(c) - len(result.Date)].Close)
+//@ ensures[C14] "annotation" len(c) > (a.Apo.SlowPeriod) ==> (forall k :: 0 <= k && k < len(result.Date) ==> colstr(result.Columns[2])[k] == (normS(res(ApoStrategy_Compute), k + len(c) - len(result.Date)) == 0 - 1 ? "S" : (normS(res(ApoStrategy_Compute), k + len(c) - len(result.Date)) == 1 ? "B" : "")))
+//@ ensures[C14] "outcome" len(c) > (a.Apo.SlowPeriod) ==> (forall k :: 0 <= k && k < len(result.Date) ==> colnum(result.Columns[3])[k] == res(Outcome)[k + len(c) - len(result.Date)] * 100)
+//@ ensures[C03] consumed(c) == len(c)
+//@ use nlast_hold(res(ApoStrategy_Compute), len(res(ApoStrategy_Compute)) - len(arg(ActionsToAnnotations, 0, 0)), len(res(ApoStrategy_Compute)) - len(arg(ActionsToAnnotations, 0, 0)))
+//@ use nlast_skip(res(ApoStrategy_Compute), arg(ActionsToAnnotations, 0, 0), len(res(ApoStrategy_Compute)) - len(arg(ActionsToAnnotations, 0, 0)))
+
+//@ func AroonStrategy.Report
+//@ requires a.Aroon.Period >= 1 && consumed(c) == 0 && (forall k :: 0 <= k && k < len(c) ==> c[k].Close > 0)
+//@ ensures[C14] "column-count" len(result.Columns) == 5
+//@ ensures[C14] "one-value-per-date" len(c) > (a.Aroon.Period - 1) ==> (forall i :: 0 <= i && i < len(result.Columns) ==> len(col(result.Columns[i])) == len(result.Date))
+//@ ensures[C14] "dates" len(c) > (a.Aroon.Period - 1) ==> len(result.Date) <= len(c) && (forall k :: 0 <= k && k < len(result.Date) ==> result.Date[k] == c[k + len(c) - len(result.Date)].Date)
+//@ ensures[C14] "close" len(c) > (a.Aroon.Period - 1) ==> (forall k :: 0 <= k && k < len(result.Date) ==> colnum(result.Columns[0])[k] == c[k + len(c) - len(result.Date)].Close)
+//@ ensures[C14] "annotation" len(c) > (a.Aroon.Period - 1) ==> (forall k :: 0 <= k && k < len(result.Date) ==> colstr(result.Columns[3])[k] == (normS(res(AroonStrategy_Compute), k + len(c) - len(result.Date)) == 0 - 1 ? "S" : (normS(res(AroonStrategy_Compute), k + len(c) - len(result.Date)) == 1 ? "B" : "")))
+//@ ensures[C14] "outcome" len(c) > (a.Aroon.Period - 1) ==> (forall k :: 0 <= k && k < len(result.Date) ==> colnum(result.Columns[4])[k] == res(Outcome)[k + len(c) - len(result.Date)] * 100)
+//@ ensures[C03] consumed(c) == len(c)
+//@ use nlast_hold(res(AroonStrategy_Compute), len(res(AroonStrategy_Compute)) - len(arg(ActionsToAnnotations, 0, 0)), len(res(AroonStrategy_Compute)) - len(arg(ActionsToAnnotations, 0, 0)))
+//@ use nlast_skip(res(AroonStrategy_Compute), arg(ActionsToAnnotations, 0, 0), len(res(AroonStrategy_Compute)) - len(arg(ActionsToAnnotations, 0, 0)))
+
+//@ func BopStrategy.Report
+//@ requires consumed(c) == 0 && (forall k :: 0 <= k && k < len(c) ==> c[k].Close > 0)
+//@ ensures[C14] "column-count" len(result.Columns) == 4
+//@ ensures[C14] "one-value-per-date" len(c) > (0) ==> (forall i :: 0 <= i && i < len(result.Columns) ==> len(col(result.Columns[i])) == len(result.Date))
+//@ ensures[C14] "dates" len(c) > (0) ==> len(result.Date) <= len(c) && (forall k :: 0 <= k && k < len(result.Date) ==> result.Date[k] == c[k + len(c) - len(result.Date)].Date)
+//@ ensures[C14] "close" len(c) > (0) ==> (forall k :: 0 <= k && k < len(result.Date) ==> colnum(result.Columns[0])[k] == c[k + len(c) - len(result.Date)].Close)
+//@ ensures[C14] "annotation" len(c) > (0) ==> (forall k :: 0 <= k && k < len(result.Date) ==> colstr(result.Columns[2])[k] == (normS(res(BopStrategy_Compute), k + len(c) - len(result.Date)) == 0 - 1 ? "S" : (normS(res(BopStrategy_Compute), k + len(c) - len(result.Date)) == 1 ? "B" : "")))
+//@ ensures[C14] "outcome" len(c) > (0) ==> (forall k :: 0 <= k && k < len(result.Date) ==> colnum(result.Columns[3])[k] == res(Outcome)[k + len(c) - len(result.Date)] * 100)
+//@ ensures[C03] consumed(c) == len(c)
+//@ use nlast_hold(res(BopStrategy_Compute), len(res(BopStrategy_Compute)) - len(arg(ActionsToAnnotations, 0, 0)), len(res(BopStrategy_Compute)) - len(arg(ActionsToAnnotations, 0, 0)))
+//@ use nlast_skip(res(BopStrategy_Compute), arg(ActionsToAnnotations, 0, 0), len(res(BopStrategy_Compute)) - len(arg(ActionsToAnnotations, 0, 0)))
+
+//@ func CciStrategy.Report
+//@ requires t.Cci.Period >= 1 && consumed(c) == 0 && (forall k :: 0 <= k && k < len(c) ==> c[k].Close > 0)
+//@ ensures[C14] "column-count" len(result.Columns) == 4
+//@ ensures[C14] "one-value-per-date" len(c) > (t.Cci.IdlePeriod()) ==> (forall i :: 0 <= i && i < len(result.Columns) ==> len(col(result.Columns[i])) == len(result.Date))
+//@ ensures[C14] "dates" len(c) > (t.Cci.IdlePeriod()) ==> len(result.Date) <= len(c) && (forall k :: 0 <= k && k < len(result.Date) ==> result.Date[k] == c[k + len(c) - len(result.Date)].Date)
+//@ ensures[C14] "close" len(c) > (t.Cci.IdlePeriod()) ==> (forall k :: 0 <= k && k < len(result.Date) ==> colnum(result.Columns[0])[k] == c[k + len(c) - len(result.Date)].Close)
+//@ ensures[C14] "annotation" len(c) > (t.Cci.IdlePeriod()) ==> (forall k :: 0 <= k && k < len(result.Date) ==> colstr(result.Columns[2])[k] == (normS(res(CciStrategy_Compute), k + len(c) - len(result.Date)) == 0 - 1 ? "S" : (normS(res(CciStrategy_Compute), k + len(c) - len(result.Date)) == 1 ? "B" : "")))
+//@ ensures[C14] "outcome" len(c) > (t.Cci.IdlePeriod()) ==> (forall k :: 0 <= k && k < len(result.Date) ==> colnum(result.Columns[3])[k] == res(Outcome)[k + len(c) - len(result.Date)] * 100)
+//@ ensures[C03] consumed(c) == len(c)
+//@ use nlast_hold(res(CciStrategy_Compute), len(res(CciStrategy_Compute)) - len(arg(ActionsToAnnotations, 0, 0)), len(res(CciStrategy_Compute)) - len(arg(ActionsToAnnotations, 0, 0)))
+//@ use nlast_skip(res(CciStrategy_Compute), arg(ActionsToAnnotations, 0, 0), len(res(CciStrategy_Compute)) - len(arg(ActionsToAnnotations, 0, 0)))
+
+//@ func DemaStrategy.Report
+//@ requires d.Dema1.Ema1.Period >= 1 && d.Dema1.Ema2.Period >= 1 && d.Dema2.Ema1.Period >= 1 && d.Dema2.Ema2.Period >= 1 && d.Dema1.IdlePeriod() <= d.Dema2.IdlePeriod() && consumed(c) == 0 && (forall k :: 0 <= k && k < len(c) ==> c[k].Close > 0)
+//@ ensures[C14] "column-count" len(result.Columns) == 5
+//@ ensures[C14] "one-value-per-date" len(c) > (d.Dema2.IdlePeriod()) ==> (forall i :: 0 <= i && i < len(result.Columns) ==> len(col(result.Columns[i])) == len(result.Date))
+//@ ensures[C14] "dates" len(c) > (d.Dema2.IdlePeriod()) ==> len(result.Date) <= len(c) && (forall k :: 0 <= k && k < len(result.Date) ==> result.Date[k] == c[k + len(c) - len(result.Date)].Date)
+//@ ensures[C14] "close" len(c) > (d.Dema2.IdlePeriod()) ==> (forall k :: 0 <= k && k < len(result.Date) ==> colnum(result.Columns[0])[k] == c[k + len(c) - len(result.Date)].Close)
+//@ ensures[C14] "annotation" len(c) > (d.Dema2.IdlePeriod()) ==> (forall k :: 0 <= k && k < len(result.Date) ==> colstr(result.Columns[3])[k] == (normS(res(DemaStrategy_Compute), k + len(c) - len(result.Date)) == 0 - 1 ? "S" : (normS(res(DemaStrategy_Compute), k + len(c) - len(result.Date)) == 1 ? "B" : "")))
+//@ ensures[C14] "outcome" len(c) > (d.Dema2.IdlePeriod()) ==> (forall k :: 0 <= k && k < len(result.Date) ==> colnum(result.Columns[4])[k] == res(Outcome)[k + len(c) - len(result.Date)] * 100)
+//@ ensures[C03] consumed(c) == len(c)
+//@ use nlast_hold(res(DemaStrategy_Compute), len(res(DemaStrategy_Compute)) - len(arg(ActionsToAnnotations, 0, 0)), len(res(DemaStrategy_Compute)) - len(arg(ActionsToAnnotations, 0, 0)))
+//@ use nlast_skip(res(DemaStrategy_Compute), arg(ActionsToAnnotations, 0, 0), len(res(DemaStrategy_Compute)) - len(arg(ActionsToAnnotations, 0, 0)))
+
+//@ func EnvelopeStrategy.Report
+//@ requires consumed(c) == 0 && (forall k :: 0 <= k && k < len(c) ==> c[k].Close > 0)
+//@ ensures[C14] "column-count" len(result.Columns) == 6
+//@ ensures[C14] "one-value-per-date" len(c) > (e.Envelope.IdlePeriod()) ==> (forall i :: 0 <= i && i < len(result.Columns) ==> len(col(result.Columns[i])) == len(result.Date))
+//@ ensures[C14] "dates" len(c) > (e.Envelope.IdlePeriod()) ==> len(result.Date) <= len(c) && (forall k :: 0 <= k && k < len(result.Date) ==> result.Date[k] == c[k + len(c) - len(result.Date)].Date)
+//@ ensures[C14] "close" len(c) > (e.Envelope.IdlePeriod()) ==> (forall k :: 0 <= k && k < len(result.Date) ==> colnum(result.Columns[0])[k] == c[k + len(c) - len(result.Date)].Close)
+//@ ensures[C14] "annotation" len(c) > (e.Envelope.IdlePeriod()) ==> (forall k :: 0 <= k && k < len(result.Date) ==> colstr(result.Columns[4])[k] == (normS(res(EnvelopeStrategy_Compute), k + len(c) - len(result.Date)) == 0 - 1 ? "S" : (normS(res(EnvelopeStrategy_Compute), k + len(c) - len(result.Date)) == 1 ? "B" : "")))
+//@ ensures[C14] "outcome" len(c) > (e.Envelope.IdlePeriod()) ==> (forall k :: 0 <= k && k < len(result.Date) ==> colnum(result.Columns[5])[k] == res(Outcome)[k + len(c) - len(result.Date)] * 100)
+//@ ensures[C03] consumed(c) == len(c)
+//@ use nlast_hold(res(EnvelopeStrategy_Compute), len(res(EnvelopeStrategy_Compute)) - len(arg(ActionsToAnnotations, 0, 0)), len(res(EnvelopeStrategy_Compute)) - len(arg(ActionsToAnnotations, 0, 0)))
+//@ use nlast_skip(res(EnvelopeStrategy_Compute), arg(ActionsToAnnotations, 0, 0), len(res(EnvelopeStrategy_Compute)) - len(arg(ActionsToAnnotations, 0, 0)))
+
+//@ func GoldenCrossStrategy.Report
+//@ requires 1 <= t.FastEma.Period && t.FastEma.Period <= t.SlowEma.Period && consumed(c) == 0 && (forall k :: 0 <= k && k < len(c) ==> c[k].Close > 0)
+//@ ensures[C14] "column-count" len(result.Columns) == 6
+//@ ensures[C14] "one-value-per-date" len(c) > (t.SlowEma.IdlePeriod()) ==> (forall i :: 0 <= i && i < len(result.Columns) ==> len(col(result.Columns[i])) == len(result.Date))
+//@ ensures[C14] "dates" len(c) > (t.SlowEma.IdlePeriod()) ==> len(result.Date) <= len(c) && (forall k :: 0 <= k && k < len(result.Date) ==> result.Date[k] == c[k + len(c) - len(result.Date)].Date)
+//@ ensures[C14] "close" len(c) > (t.SlowEma.IdlePeriod()) ==> (forall k :: 0 <= k && k < len(result.Date) ==> colnum(result.Columns[0])[k] == c[k + len(c) - len(result.Date)].Close)
+//@ ensures[C14] "annotation" len(c) > (t.SlowEma.IdlePeriod()) ==> (forall k :: 0 <= k && k < len(result.Date) ==> colstr(result.Columns[4])[k] == (normS(res(GoldenCrossStrategy_Compute), k + len(c) - len(result.Date)) == 0 - 1 ? "S" : (normS(res(GoldenCrossStrategy_Compute), k + len(c) - len(result.Date)) == 1 ? "B" : "")))
+//@ ensures[C14] "outcome" len(c) > (t.SlowEma.IdlePeriod()) ==> (forall k :: 0 <= k && k < len(result.Date) ==> colnum(result.Columns[5])[k] == res(Outcome)[k + len(c) - len(result.Date)] * 100)
+//@ ensures[C03] consumed(c) == len(c)
+//@ use nlast_hold(res(GoldenCrossStrategy_Compute), len(res(GoldenCrossStrategy_Compute)) - len(arg(ActionsToAnnotations, 0, 0)), len(res(GoldenCrossStrategy_Compute)) - len(arg(ActionsToAnnotations, 0, 0)))
+//@ use nlast_skip(res(GoldenCrossStrategy_Compute), arg(ActionsToAnnotations, 0, 0), len(res(GoldenCrossStrategy_Compute)) - len(arg(ActionsToAnnotations, 0, 0)))
+
+//@ func KamaStrategy.Report
+//@ requires k.Kama.ErPeriod >= 1 && consumed(c) == 0 && (forall k :: 0 <= k && k < len(c) ==> c[k].Close > 0)
+//@ ensures[C14] "column-count" len(result.Columns) == 4
+//@ ensures[C14] "one-value-per-date" len(c) > (k.Kama.IdlePeriod()) ==> (forall i :: 0 <= i && i < len(result.Columns) ==> len(col(result.Columns[i])) == len(result.Date))
+//@ ensures[C14] "dates" len(c) > (k.Kama.IdlePeriod()) ==> len(result.Date) <= len(c) && (forall k :: 0 <= k && k < len(result.Date) ==> result.Date[k] == c[k + len(c) - len(result.Date)].Date)
+//@ ensures[C14] "close" len(c) > (k.Kama.IdlePeriod()) ==> (forall k :: 0 <= k && k < len(result.Date) ==> colnum(result.Columns[0])[k] == c[k + len(c) - len(result.Date)].Close)
+//@ ensures[C14] "annotation" len(c) > (k.Kama.IdlePeriod()) ==> (forall k :: 0 <= k && k < len(result.Date) ==> colstr(result.Columns[2])[k] == (normS(res(KamaStrategy_Compute), k + len(c) - len(result.Date)) == 0 - 1 ? "S" : (normS(res(KamaStrategy_Compute), k + len(c) - len(result.Date)) == 1 ? "B" : "")))
+//@ ensures[C14] "outcome" len(c) > (k.Kama.IdlePeriod()) ==> (forall k :: 0 <= k && k < len(result.Date) ==> colnum(result.Columns[3])[k] == res(Outcome)[k + len(c) - len(result.Date)] * 100)
+//@ ensures[C03] consumed(c) == len(c)
+//@ use nlast_hold(res(KamaStrategy_Compute), len(res(KamaStrategy_Compute)) - len(arg(ActionsToAnnotations, 0, 0)), len(res(KamaStrategy_Compute)) - len(arg(ActionsToAnnotations, 0, 0)))
+//@ use nlast_skip(res(KamaStrategy_Compute), arg(ActionsToAnnotations, 0, 0), len(res(KamaStrategy_Compute)) - len(arg(ActionsToAnnotations, 0, 0)))
+
+//@ func KdjStrategy.Report
+//@ requires kdj.Kdj.MovingMax.Period >= 1 && kdj.Kdj.MovingMin.Period == kdj.Kdj.MovingMax.Period && kdj.Kdj.Sma1.Period >= 1 && kdj.Kdj.Sma2.Period >= 1 && consumed(c) == 0 && (forall k :: 0 <= k && k < len(c) ==> c[k].Close > 0)
+//@ ensures[C14] "column-count" len(result.Columns) == 6
+//@ ensures[C14] "one-value-per-date" len(c) > (kdj.Kdj.IdlePeriod()) ==> (forall i :: 0 <= i && i < len(result.Columns) ==> len(col(result.Columns[i])) == len(result.Date))
+//@ ensures[C14] "dates" len(c) > (kdj.Kdj.IdlePeriod()) ==> len(result.Date) <= len(c) && (forall k :: 0 <= k && k < len(result.Date) ==> result.Date[k] == c[k + len(c) - len(result.Date)].Date)
+//@ ensures[C14] "close" len(c) > (kdj.Kdj.IdlePeriod()) ==> (forall k :: 0 <= k && k < len(result.Date) ==> colnum(result.Columns[0])[k] == c[k + len(c) - len(result.Date)].Close)
+//@ ensures[C14] "annotation" len(c) > (kdj.Kdj.IdlePeriod()) ==> (forall k :: 0 <= k && k < len(result.Date) ==> colstr(result.Columns[4])[k] == (normS(res(KdjStrategy_Compute), k + len(c) - len(result.Date)) == 0 - 1 ? "S" : (normS(res(KdjStrategy_Compute), k + len(c) - len(result.Date)) == 1 ? "B" : "")))
+//@ ensures[C14] "outcome" len(c) > (kdj.Kdj.IdlePeriod()) ==> (forall k :: 0 <= k && k < len(result.Date) ==> colnum(result.Columns[5])[k] == res(Outcome)[k + len(c) - len(result.Date)] * 100)
+//@ ensures[C03] consumed(c) == len(c)
+//@ use nlast_hold(res(KdjStrategy_Compute), len(res(KdjStrategy_Compute)) - len(arg(ActionsToAnnotations, 0, 0)), len(res(KdjStrategy_Compute)) - len(arg(ActionsToAnnotations, 0, 0)))
+//@ use nlast_skip(res(KdjStrategy_Compute), arg(ActionsToAnnotations, 0, 0), len(res(KdjStrategy_Compute)) - len(arg(ActionsToAnnotations, 0, 0)))
+
+//@ func MacdStrategy.Report
+//@ requires 1 <= m.Macd.Ema1.Period && m.Macd.Ema1.Period <= m.Macd.Ema2.Period && m.Macd.Ema3.Period >= 1 && consumed(c) == 0 && (forall k :: 0 <= k && k < len(c) ==> c[k].Close > 0)
+//@ ensures[C14] "column-count" len(result.Columns) == 5
+//@ ensures[C14] "one-value-per-date" len(c) > (m.Macd.IdlePeriod()) ==> (forall i :: 0 <= i && i < len(result.Columns) ==> len(col(result.Columns[i])) == len(result.Date))
+//@ ensures[C14] "dates" len(c) > (m.Macd.IdlePeriod()) ==> len(result.Date) <= len(c) && (forall k :: 0 <= k && k < len(result.Date) ==> result.Date[k] == c[k + len(c) - len(result.Date)].Date)
+//@ ensures[C14] "close" len(c) > (m.Macd.IdlePeriod()) ==> (forall k :: 0 <= k && k < len(result.Date) ==> colnum(result.Columns[0])[k] == c[k + len(c) - len(result.Date)].Close)
+//@ ensures[C14] "annotation" len(c) > (m.Macd.IdlePeriod()) ==> (forall k :: 0 <= k && k < len(result.Date) ==> colstr(result.Columns[3])[k] == (normS(res(MacdStrategy_Compute), k + len(c) - len(result.Date)) == 0 - 1 ? "S" : (normS(res(MacdStrategy_Compute), k + len(c) - len(result.Date)) == 1 ? "B" : "")))
+//@ ensures[C14] "outcome" len(c) > (m.Macd.IdlePeriod()) ==> (forall k :: 0 <= k && k < len(result.Date) ==> colnum(result.Columns[4])[k] == res(Outcome)[k + len(c) - len(result.Date)] * 100)
+//@ ensures[C03] consumed(c) == len(c)
+//@ use nlast_hold(res(MacdStrategy_Compute), len(res(MacdStrategy_Compute)) - len(arg(ActionsToAnnotations, 0, 0)), len(res(MacdStrategy_Compute)) - len(arg(ActionsToAnnotations, 0, 0)))
+//@ use nlast_skip(res(MacdStrategy_Compute), arg(ActionsToAnnotations, 0, 0), len(res(MacdStrategy_Compute)) - len(arg(ActionsToAnnotations, 0, 0)))
+
+//@ func QstickStrategy.Report
+//@ requires q.Qstick.Sma.Period >= 1 && consumed(c) == 0 && (forall k :: 0 <= k && k < len(c) ==> c[k].Close > 0)
+//@ ensures[C14] "column-count" len(result.Columns) == 5
+//@ ensures[C14] "one-value-per-date" len(c) > (q.Qstick.Sma.Period) ==> (forall i :: 0 <= i && i < len(result.Columns) ==> len(col(result.Columns[i])) == len(result.Date))
+//@ ensures[C14] "dates" len(c) > (q.Qstick.Sma.Period) ==> len(result.Date) <= len(c) && (forall k :: 0 <= k && k < len(result.Date) ==> result.Date[k] == c[k + len(c) - len(result.Date)].Date)
+//@ ensures[C14] "close" len(c) > (q.Qstick.Sma.Period) ==> (forall k :: 0 <= k && k < len(result.Date) ==> colnum(result.Columns[1])[k] == c[k + len(c) - len(result.Date)].Close)
+//@ ensures[C14] "annotation" len(c) > (q.Qstick.Sma.Period) ==> (forall k :: 0 <= k && k < len(result.Date) ==> colstr(result.Columns[3])[k] == (normS(res(QstickStrategy_Compute), k + len(c) - len(result.Date)) == 0 - 1 ? "S" : (normS(res(QstickStrategy_Compute), k + len(c) - len(result.Date)) == 1 ? "B" : "")))
+//@ ensures[C14] "outcome" len(c) > (q.Qstick.Sma.Period) ==> (forall k :: 0 <= k && k < len(result.Date) ==> colnum(result.Columns[4])[k] == res(Outcome)[k + len(c) - len(result.Date)] * 100)
+//@ ensures[C03] consumed(c) == len(c)
+//@ use nlast_hold(res(QstickStrategy_Compute), len(res(QstickStrategy_Compute)) - len(arg(ActionsToAnnotations, 0, 0)), len(res(QstickStrategy_Compute)) - len(arg(ActionsToAnnotations, 0, 0)))
+//@ use nlast_skip(res(QstickStrategy_Compute), arg(ActionsToAnnotations, 0, 0), len(res(QstickStrategy_Compute)) - len(arg(ActionsToAnnotations, 0, 0)))
+
+//@ func SmmaStrategy.Report
+//@ requires s.ShortSmma.Period >= 1 && s.LongSmma.Period >= 1 && consumed(c) == 0 && (forall k :: 0 <= k && k < len(c) ==> c[k].Close > 0)
+//@ ensures[C14] "column-count" len(result.Columns) == 5
+//@ ensures[C14] "one-value-per-date" len(c) > (max(s.ShortSmma.Period, s.LongSmma.Period) - 1) ==> (forall i :: 0 <= i && i < len(result.Columns) ==> len(col(result.Columns[i])) == len(result.Date))
+//@ ensures[C14] "dates" len(c) > (max(s.ShortSmma.Period, s.LongSmma.Period) - 1) ==> len(result.Date) <= len(c) && (forall k :: 0 <= k && k < len(result.Date) ==> result.Date[k] == c[k + len(c) - len(result.Date)].Date)
+//@ ensures[C14] "close" len(c) > (max(s.ShortSmma.Period, s.LongSmma.Period) - 1) ==> (forall k :: 0 <= k && k < len(result.Date) ==> colnum(result.Columns[0])[k] == c[k + len(c) - len(result.Date)].Close)
+//@ ensures[C14] "annotation" len(c) > (max(s.ShortSmma.Period, s.LongSmma.Period) - 1) ==> (forall k :: 0 <= k && k < len(result.Date) ==> colstr(result.Columns[3])[k] == (normS(res(SmmaStrategy_Compute), k + len(c) - len(result.Date)) == 0 - 1 ? "S" : (normS(res(SmmaStrategy_Compute), k + len(c) - len(result.Date)) == 1 ? "B" : "")))
+//@ ensures[C14] "outcome" len(c) > (max(s.ShortSmma.Period, s.LongSmma.Period) - 1) ==> (forall k :: 0 <= k && k < len(result.Date) ==> colnum(result.Columns[4])[k] == res(Outcome)[k + len(c) - len(result.Date)] * 100)
+//@ ensures[C03] consumed(c) == len(c)
+//@ use nlast_hold(res(SmmaStrategy_Compute), len(res(SmmaStrategy_Compute)) - len(arg(ActionsToAnnotations, 0, 0)), len(res(SmmaStrategy_Compute)) - len(arg(ActionsToAnnotations, 0, 0)))
+//@ use nlast_skip(res(SmmaStrategy_Compute), arg(ActionsToAnnotations, 0, 0), len(res(SmmaStrategy_Compute)) - len(arg(ActionsToAnnotations, 0, 0)))
+
+//@ func TrimaStrategy.Report
+//@ requires 1 <= t.Short.Period && t.Short.Period <= t.Long.Period && consumed(c) == 0 && (forall k :: 0 <= k && k < len(c) ==> c[k].Close > 0)
+//@ ensures[C14] "column-count" len(result.Columns) == 5
+//@ ensures[C14] "one-value-per-date" len(c) > (t.Long.IdlePeriod()) ==> (forall i :: 0 <= i && i < len(result.Columns) ==> len(col(result.Columns[i])) == len(result.Date))
+//@ ensures[C14] "dates" len(c) > (t.Long.IdlePeriod()) ==> len(result.Date) <= len(c) && (forall k :: 0 <= k && k < len(result.Date) ==> result.Date[k] == c[k + len(c) - len(result.Date)].Date)
+//@ ensures[C14] "close" len(c) > (t.Long.IdlePeriod()) ==> (forall k :: 0 <= k && k < len(result.Date) ==> colnum(result.Columns[0])[k] == c[k + len(c) - len(result.Date)].Close)
+//@ ensures[C14] "annotation" len(c) > (t.Long.IdlePeriod()) ==> (forall k :: 0 <= k && k < len(result.Date) ==> colstr(result.Columns[3])[k] == (normS(res(TrimaStrategy_Compute), k + len(c) - len(result.Date)) == 0 - 1 ? "S" : (normS(res(TrimaStrategy_Compute), k + len(c) - len(result.Date)) == 1 ? "B" : "")))
+//@ ensures[C14] "outcome" len(c) > (t.Long.IdlePeriod()) ==> (forall k :: 0 <= k && k < len(result.Date) ==> colnum(result.Columns[4])[k] == res(Outcome)[k + len(c) - len(result.Date)] * 100)
+//@ ensures[C03] consumed(c) == len(c)
+//@ use nlast_hold(res(TrimaStrategy_Compute), len(res(TrimaStrategy_Compute)) - len(arg(ActionsToAnnotations, 0, 0)), len(res(TrimaStrategy_Compute)) - len(arg(ActionsToAnnotations, 0, 0)))
+//@ use nlast_skip(res(TrimaStrategy_Compute), arg(ActionsToAnnotations, 0, 0), len(res(TrimaStrategy_Compute)) - len(arg(ActionsToAnnotations, 0, 0)))
+
+//@ func TripleMovingAverageCrossoverStrategy.Report
+//@ requires 1 <= t.FastEma.Period && t.FastEma.Period <= t.MediumEma.Period && t.MediumEma.Period <= t.SlowEma.Period && consumed(c) == 0 && (forall k :: 0 <= k && k < len(c) ==> c[k].Close > 0)
+//@ ensures[C14] "column-count" len(result.Columns) == 7
+//@ ensures[C14] "one-value-per-date" len(c) > (t.SlowEma.IdlePeriod()) ==> (forall i :: 0 <= i && i < len(result.Columns) ==> len(col(result.Columns[i])) == len(result.Date))
+//@ ensures[C14] "dates" len(c) > (t.SlowEma.IdlePeriod()) ==> len(result.Date) <= len(c) && (forall k :: 0 <= k && k < len(result.Date) ==> result.Date[k] == c[k + len(c) - len(result.Date)].Date)
+//@ ensures[C14] "close" len(c) > (t.SlowEma.IdlePeriod()) ==> (forall k :: 0 <= k && k < len(result.Date) ==> colnum(result.Columns[0])[k] == c[k + len(c) - len(result.Date)].Close)
+//@ ensures[C14] "annotation" len(c) > (t.SlowEma.IdlePeriod()) ==> (forall k :: 0 <= k && k < len(result.Date) ==> colstr(result.Columns[5])[k] == (normS(res(TripleMovingAverageCrossoverStrategy_Compute), k + len(c) - len(result.Date)) == 0 - 1 ? "S" : (normS(res(TripleMovingAverageCrossoverStrategy_Compute), k + len(c) - len(result.Date)) == 1 ? "B" : "")))
+//@ ensures[C14] "outcome" len(c) > (t.SlowEma.IdlePeriod()) ==> (forall k :: 0 <= k && k < len(result.Date) ==> colnum(result.Columns[6])[k] == res(Outcome)[k + len(c) - len(result.Date)] * 100)
+//@ ensures[C03] consumed(c) == len(c)
+//@ use nlast_hold(res(TripleMovingAverageCrossoverStrategy_Compute), len(res(TripleMovingAverageCrossoverStrategy_Compute)) - len(arg(ActionsToAnnotations, 0, 0)), len(res(TripleMovingAverageCrossoverStrategy_Compute)) - len(arg(ActionsToAnnotations, 0, 0)))
+//@ use nlast_skip(res(TripleMovingAverageCrossoverStrategy_Compute), arg(ActionsToAnnotations, 0, 0), len(res(TripleMovingAverageCrossoverStrategy_Compute)) - len(arg(ActionsToAnnotations, 0, 0)))
+
+//@ func TrixStrategy.Report
+//@ requires t.Trix.Period >= 1 && consumed(c) == 0 && (forall k :: 0 <= k && k < len(c) ==> c[k].Close > 0)
+//@ ensures[C14] "column-count" len(result.Columns) == 4
+//@ ensures[C14] "one-value-per-date" len(c) > (t.Trix.IdlePeriod()) ==> (forall i :: 0 <= i && i < len(result.Columns) ==> len(col(result.Columns[i])) == len(result.Date))
+//@ ensures[C14] "dates" len(c) > (t.Trix.IdlePeriod()) ==> len(result.Date) <= len(c) && (forall k :: 0 <= k && k < len(result.Date) ==> result.Date[k] == c[k + len(c) - len(result.Date)].Date)
+//@ ensures[C14] "close" len(c) > (t.Trix.IdlePeriod()) ==> (forall k :: 0 <= k && k < len(result.Date) ==> colnum(result.Columns[0])[k] == c[k + len(c) - len(result.Date)].Close)
+//@ ensures[C14] "annotation" len(c) > (t.Trix.IdlePeriod()) ==> (forall k :: 0 <= k && k < len(result.Date) ==> colstr(result.Columns[2])[k] == (normS(res(TrixStrategy_Compute), k + len(c) - len(result.Date)) == 0 - 1 ? "S" : (normS(res(TrixStrategy_Compute), k + len(c) - len(result.Date)) == 1 ? "B" : "")))
+//@ ensures[C14] "outcome" len(c) > (t.Trix.IdlePeriod()) ==> (forall k :: 0 <= k && k < len(result.Date) ==> colnum(result.Columns[3])[k] == res(Outcome)[k + len(c) - len(result.Date)] * 100)
+//@ ensures[C03] consumed(c) == len(c)
+//@ use nlast_hold(res(TrixStrategy_Compute), len(res(TrixStrategy_Compute)) - len(arg(ActionsToAnnotations, 0, 0)), len(res(TrixStrategy_Compute)) - len(arg(ActionsToAnnotations, 0, 0)))
+//@ use nlast_skip(res(TrixStrategy_Compute), arg(ActionsToAnnotations, 0, 0), len(res(TrixStrategy_Compute)) - len(arg(ActionsToAnnotations, 0, 0)))
+
+//@ func TsiStrategy.Report
+//@ requires consumed(c) == 0 && (forall k :: 0 <= k && k < len(c) ==> c[k].Close > 0)
+//@ ensures[C14] "column-count" len(result.Columns) == 5
+//@ ensures[C14] "one-value-per-date" len(c) > (t.IdlePeriod()) ==> (forall i :: 0 <= i && i < len(result.Columns) ==> len(col(result.Columns[i])) == len(result.Date))
+//@ ensures[C14] "dates" len(c) > (t.IdlePeriod()) ==> len(result.Date) <= len(c) && (forall k :: 0 <= k && k < len(result.Date) ==> result.Date[k] == c[k + len(c) - len(result.Date)].Date)
+//@ ensures[C14] "close" len(c) > (t.IdlePeriod()) ==> (forall k :: 0 <= k && k < len(result.Date) ==> colnum(result.Columns[0])[k] == c[k + len(c) - len(result.Date)].Close)
+//@ ensures[C14] "annotation" len(c) > (t.IdlePeriod()) ==> (forall k :: 0 <= k && k < len(result.Date) ==> colstr(result.Columns[3])[k] == (normS(res(TsiStrategy_Compute), k + len(c) - len(result.Date)) == 0 - 1 ? "S" : (normS(res(TsiStrategy_Compute), k + len(c) - len(result.Date)) == 1 ? "B" : "")))
+//@ ensures[C14] "outcome" len(c) > (t.IdlePeriod()) ==> (forall k :: 0 <= k && k < len(result.Date) ==> colnum(result.Columns[4])[k] == res(Outcome)[k + len(c) - len(result.Date)] * 100)
+//@ ensures[C03] consumed(c) == len(c)
+//@ use nlast_hold(res(TsiStrategy_Compute), len(res(TsiStrategy_Compute)) - len(arg(ActionsToAnnotations, 0, 0)), len(res(TsiStrategy_Compute)) - len(arg(ActionsToAnnotations, 0, 0)))
+//@ use nlast_skip(res(TsiStrategy_Compute), arg(ActionsToAnnotations, 0, 0), len(res(TsiStrategy_Compute)) - len(arg(ActionsToAnnotations, 0, 0)))
+
+//@ func VwmaStrategy.Report
+//@ requires v.Vwma.Period >= 1 && v.Sma.Period == v.Vwma.Period && consumed(c) == 0 && (forall k :: 0 <= k && k < len(c) ==> c[k].Close > 0)
+//@ ensures[C14] "column-count" len(result.Columns) == 5
+//@ ensures[C14] "one-value-per-date" len(c) > (v.Vwma.Period - 1) ==> (forall i :: 0 <= i && i < len(result.Columns) ==> len(col(result.Columns[i])) == len(result.Date))
+//@ ensures[C14] "dates" len(c) > (v.Vwma.Period - 1) ==> len(result.Date) <= len(c) && (forall k :: 0 <= k && k < len(result.Date) ==> result.Date[k] == c[k + len(c) - len(result.Date)].Date)
+//@ ensures[C14] "close" len(c) > (v.Vwma.Period - 1) ==> (forall k :: 0 <= k && k < len(result.Date) ==> colnum(result.Columns[0])[k] == c[k + len(c) - len(result.Date)].Close)
+//@ ensures[C14] "annotation" len(c) > (v.Vwma.Period - 1) ==> (forall k :: 0 <= k && k < len(result.Date) ==> colstr(result.Columns[3])[k] == (normS(res(VwmaStrategy_Compute), k + len(c) - len(result.Date)) == 0 - 1 ? "S" : (normS(res(VwmaStrategy_Compute), k + len(c) - len(result.Date)) == 1 ? "B" : "")))
+//@ ensures[C14] "outcome" len(c) > (v.Vwma.Period - 1) ==> (forall k :: 0 <= k && k < len(result.Date) ==> colnum(result.Columns[4])[k] == res(Outcome)[k + len(c) - len(result.Date)] * 100)
+//@ ensures[C03] consumed(c) == len(c)
+//@ use nlast_hold(res(VwmaStrategy_Compute), len(res(VwmaStrategy_Compute)) - len(arg(ActionsToAnnotations, 0, 0)), len(res(VwmaStrategy_Compute)) - len(arg(ActionsToAnnotations, 0, 0)))
+//@ use nlast_skip(res(VwmaStrategy_Compute), arg(ActionsToAnnotations, 0, 0), len(res(VwmaStrategy_Compute)) - len(arg(ActionsToAnnotations, 0, 0)))
+
+//@ func WeightedCloseStrategy.Report
+//@ requires consumed(snapshots) == 0 && (forall k :: 0 <= k && k < len(snapshots) ==> snapshots[k].Close > 0)
+//@ ensures[C14] "column-count" len(result.Columns) == 5
+//@ ensures[C14] "one-value-per-date" len(snapshots) > (w.Ma.IdlePeriod()) ==> (forall i :: 0 <= i && i < len(result.Columns) ==> len(col(result.Columns[i])) == len(result.Date))
+//@ ensures[C14] "dates" len(snapshots) > (w.Ma.IdlePeriod()) ==> len(result.Date) <= len(snapshots) && (forall k :: 0 <= k && k < len(result.Date) ==> result.Date[k] == snapshots[k + len(snapshots) - len(result.Date)].Date)
+//@ ensures[C14] "close" len(snapshots) > (w.Ma.IdlePeriod()) ==> (forall k :: 0 <= k && k < len(result.Date) ==> colnum(result.Columns[0])[k] == snapshots[k + len(snapshots) - len(result.Date)].Close)
+//@ ensures[C14] "annotation" len(snapshots) > (w.Ma.IdlePeriod()) ==> (forall k :: 0 <= k && k < len(result.Date) ==> colstr(result.Columns[3])[k] == (normS(res(WeightedCloseStrategy_Compute), k + len(snapshots) - len(result.Date)) == 0 - 1 ? "S" : (normS(res(WeightedCloseStrategy_Compute), k + len(snapshots) - len(result.Date)) == 1 ? "B" : "")))
+//@ ensures[C14] "outcome" len(snapshots) > (w.Ma.IdlePeriod()) ==> (forall k :: 0 <= k && k < len(result.Date) ==> colnum(result.Columns[4])[k] == res(Outcome)[k + len(snapshots) - len(result.Date)] * 100)
+//@ ensures[C03] consumed(snapshots) == len(snapshots)
+//@ use nlast_hold(res(WeightedCloseStrategy_Compute), len(res(WeightedCloseStrategy_Compute)) - len(arg(ActionsToAnnotations, 0, 0)), len(res(WeightedCloseStrategy_Compute)) - len(arg(ActionsToAnnotations, 0, 0)))
+//@ use nlast_skip(res(WeightedCloseStrategy_Compute), arg(ActionsToAnnotations, 0, 0), len(res(WeightedCloseStrategy_Compute)) - len(arg(ActionsToAnnotations, 0, 0)))
